@@ -434,6 +434,30 @@ static void bad_LST1_tail_before_switch(cJSON *parent, cJSON *item, cJSON *repla
     if (replacement->next == NULL) { parent->child->prev = replacement; }
     if (parent->child == item) { parent->child = replacement; }
 }
+/* MRG6: no member is treated differently because of a byte of its name */
+static cJSON *bad_MRG6_skips_empty_name(cJSON *target, const cJSON * const patch)
+{
+    cJSON *child = patch->child;
+    while (child != NULL)
+    {
+        if ((child->string == NULL) || (child->string[0] == '\0')) { child = child->next; continue; }
+        cJSON_DeleteItemFromObject(target, child->string);
+        child = child->next;
+    }
+    return target;
+}
+static cJSON *good_every_name(cJSON *target, const cJSON * const patch)
+{
+    cJSON *child = patch->child;
+    while (child != NULL)
+    {
+        if (child->string == NULL) { child = child->next; continue; }
+        cJSON_DeleteItemFromObject(target, child->string);
+        child = child->next;
+    }
+    return target;
+}
+cJSON *use_mrg6(cJSON *t, const cJSON *p) { return good_every_name(bad_MRG6_skips_empty_name(t, p), p); }
 /* OWN11: a node handed over by value and then freed alone */
 static void fx_overwrite_keeps_name(cJSON * const root, const cJSON replacement)
 {
